@@ -57,7 +57,8 @@ PROPS = {
                                "keyword_exact_list", "keyword_exact_implements", "keyword_exact_bare", "list_names_valid",
                                "constructor_names", "ignore_codes_upper", "prefilter_complete", "near_miss_inert",
                                "acceptAfter_iff", "list_complete", "constructor_complete", "packageonly_complete", "ignore_complete",
-                               "list_sound", "constructor_sound"]),
+                               "list_sound", "constructor_sound",
+                               "spec_doc_wins", "group_doc_fallback", "type_decl_by_spec", "documented_spec_local", "undocumented_spec_inert", "type_decl_split"]),
         "suites": ["gram", ("prog", {"focus": "ANN:IKTMP"}), ("std", {"withmodel": "1", "focus": "ANN:IKTMP"}),
                    ("prog", {"impl": "1", "focus": "IMPL", "n": 50, "nocorpus": "1"})],
         "assumptions": [
